@@ -5,6 +5,7 @@ from ..index import AnalysisError, attr_chain, norm, own_nodes
 from ..query import calls_in, call_name, is_value_yield, lines, assigns
 from ..flow import reaching_defs
 from ..condeval import check_cond
+from .common import borrowed
 from .common import (TLSCONN, TLSREC, nodes_with_call, consumes_of, dead_edge_labels, must_pass, rule_consume)
 
 EXPLANATION = (
@@ -334,4 +335,5 @@ RULES = [
     ("C10.SIGN-VERIFY", "quick", rule_sign_verify),
     ("C10.PEER-VALUES", "quick", rule_peer_values),
     ("C10.CONSUME", "quick", rule_consume_c10),
+    ("C10.LOCKSET-RSA", "quick", borrowed("c18", "rule_lockset", "C18.LOCKSET", "C10.LOCKSET", only="utils.python_rsakey:Python_RSAKey")),
 ]
